@@ -1043,7 +1043,7 @@ package hermes
 //@   invariant notyet: forall(y, 0, \i, s.JAR[y] != year)
 //@   invariant untouched: unchanged(g.TEMP, g.TMIN, g.TMAX, g.REGEN, g.RAD, g.WIND, g.RH, g.JTAG, g.SUND, g.VERD, g.ETNULL) && yi == 0-1
 //@ loop LoadYear#2
-//@   invariant range: 0 <= \i && \i <= days && days == s.MaxYearDays[yearIdx] && 0 <= yearIdx && yearIdx < ny()
+//@   invariant range: 0 <= \i && \i <= max(days, 0) && days == s.MaxYearDays[yearIdx] && 0 <= yearIdx && yearIdx < ny()
 //@   invariant sameday: forall(t, 0, \i, g.TEMP[t] == s.TMP[yearIdx][t] && g.REGEN[t] == s.REG[yearIdx][t] && g.RAD[t] == s.RADI[yearIdx][t] && g.WIND[t] == s.WIN[yearIdx][t] && g.RH[t] == s.RELF[yearIdx][t])
 //@   invariant extremes: forall(t, 0, \i, ite(s.TMI[yearIdx][t] > s.TMA[yearIdx][t] + 0.5, g.TMIN[t] == s.TMA[yearIdx][t] && g.TMAX[t] == s.TMI[yearIdx][t], g.TMIN[t] == s.TMI[yearIdx][t] && g.TMAX[t] == s.TMA[yearIdx][t]))
 //@   invariant optional: forall(t, 0, \i, (s.hasSUND ==> g.SUND[t] == s.SUND[yearIdx][t]) && (s.hasVERD ==> g.VERD[t] == s.VERD[yearIdx][t]) && (s.hasETNULL ==> g.ETNULL[t] == s.ETNULL[yearIdx][t]))
